@@ -5,16 +5,17 @@
 (* FormatterToXMLUnicode call sites (IndentImpl) and through the dummy writer; what they wrote is read back.  *)
 (*   DummyExact      indent="no": the parse IS the tree the events denote                                     *)
 (*   IndentConforms  indent on : the parse satisfies OutputOptions!SameContent (only whitespace-only nodes     *)
-(*                   between tags were added) on every sequence that meets no named deviation                  *)
+(*                   between tags were added) on EVERY sequence: no named deviation is left (KnownDeviation =  *)
+(*                   FALSE since the repairs C08-wsAfterCdataBeforeElement / C08-wsAfterRawBeforeElement)      *)
 (*   NoWsNextToText  the same, said locally: no indent() output is adjacent to character data                  *)
 (*   PreservesDead   the m_preserves stack only ever holds FALSE                                               *)
-(*   KDsAreReal      every named deviation does break SameContent on its witness                               *)
+(*   KDsAreReal      the witnesses of the repaired deviations now conform; indentation is still written        *)
 (* GenSpec/View: the behaviour generator - `hist` and the output are hidden by the VIEW, so TLC keeps one      *)
 (* state per (writer state, last item, last event) and `tlc -dump` gives one shortest event sequence each.     *)
 EXTENDS IndentImpl, TLC
 
 CONSTANTS MaxHist, MaxDepth
-VARIABLES w, d, dev, hist
+VARIABLES w, d, mark, hist
 
 A == <<97>>   B == <<98>>
 MC_CdataElems == {B}
@@ -22,18 +23,23 @@ X == <<120>>  SP == <<32>>  R == <<114>>  CM == <<99>>  PT == <<112>>
 Events == {[op |-> "open", name |-> A], [op |-> "open", name |-> B], [op |-> "close"],
            [op |-> "text", v |-> X], [op |-> "text", v |-> SP], [op |-> "raw", v |-> R],
            [op |-> "comment", v |-> CM], [op |-> "pi", name |-> PT, v |-> X]}
-vars == <<w, d, dev, hist>>
+vars == <<w, d, mark, hist>>
 
-Init == /\ w = WInit(TRUE, FALSE) /\ d = WInit(FALSE, FALSE) /\ dev = FALSE /\ hist = <<>>
+Init == /\ w = WInit(TRUE, FALSE) /\ d = WInit(FALSE, FALSE) /\ mark = FALSE /\ hist = <<>>
 
 Legal(ev) == /\ (ev.op = "close" => w.names # <<>>)
              /\ (ev.op = "open" => Len(w.names) < MaxDepth)
              /\ (ev.op = "open" /\ w.names = <<>> => \A p \in 1..Len(w.out) : w.out[p].i # "stag")   \* ONE document element
              /\ (ev.op \in {"text", "raw"} => w.names # <<>>)          \* a well-formed document has no top-level text
+(* an element opened directly after a CDATA section / unescaped text: the shapes on which the statements added by the  *)
+(* repairs C08-wsAfterCdataBeforeElement / C08-wsAfterRawBeforeElement decide.  Not a deviation any more - `mark` only *)
+(* keeps these histories apart in the generator's VIEW, so that they are still exported to the conformance run (the    *)
+(* writer state after them is now the same as after ordinary text, and the VIEW would fold them into that history).    *)
+AfterCharDataItem(x, ev) == x.on /\ ev.op = "open" /\ x.names # <<>> /\ x.out[Len(x.out)].i \in {"cdata", "raw"}
 Step(ev, g) == /\ Legal(ev)
                /\ (g => ~KnownDeviation(w, ev))
                /\ w' = Apply(w, ev) /\ d' = Apply(d, ev)
-               /\ dev' = (dev \/ KnownDeviation(w, ev))
+               /\ mark' = (mark \/ KnownDeviation(w, ev) \/ AfterCharDataItem(w, ev))
                /\ hist' = Append(hist, ev)
 NextG(g) == Len(hist) < MaxHist /\ \E ev \in Events : Step(ev, g)
 Spec    == Init /\ [][NextG(TRUE)]_vars
@@ -41,7 +47,7 @@ GenSpec == Init /\ [][NextG(FALSE)]_vars
 
 LastItem == IF w.out = <<>> THEN "none" ELSE w.out[Len(w.out)].i
 LastOp   == IF hist = <<>> THEN [op |-> "init"] ELSE hist[Len(hist)]
-View == <<[w EXCEPT !.out = <<>>], LastItem, LastOp, dev>>
+View == <<[w EXCEPT !.out = <<>>], LastItem, LastOp, mark>>
 
 (* ---- properties -------------------------------------------------------------------------------------------- *)
 (* the document is complete once endDocument() ran; a prefix is judged with its open elements closed *)
@@ -63,11 +69,14 @@ O(n) == [op |-> "open", name |-> n]
 Tx(v) == [op |-> "text", v |-> v]
 Cl == [op |-> "close"]
 Breaks(h) == ~SameContent(TreeOf(h), Parse(Done(Run(WInit(TRUE, FALSE), h))), TRUE)
-HitsKD(kd(_, _), h) == LET n == Len(h) IN kd(Run(WInit(TRUE, FALSE), SubSeq(h, 1, n - 1)), h[n])
 KDsAreRealDef ==
-  /\ HitsKD(KD_wsAfterCdataBeforeElement, <<O(A), O(B), Tx(X), O(A)>>) /\ Breaks(<<O(A), O(B), Tx(X), O(A)>>)
-  /\ HitsKD(KD_wsAfterRawBeforeElement, <<O(A), [op |-> "raw", v |-> R], O(A)>>) /\ Breaks(<<O(A), [op |-> "raw", v |-> R], O(A)>>)
-  (* the dummy writer has neither *)
+  (* Repaired: the witnesses of the former deviations wsAfterCdataBeforeElement / wsAfterRawBeforeElement (an element *)
+  (* right after a CDATA section / after unescaped text) now meet the obligation, also when the element is closed     *)
+  /\ ~Breaks(<<O(A), O(B), Tx(X), O(A)>>) /\ ~Breaks(<<O(A), O(B), Tx(X), O(A), Cl, Cl, Cl>>)
+  /\ ~Breaks(<<O(A), [op |-> "raw", v |-> R], O(A)>>) /\ ~Breaks(<<O(A), [op |-> "raw", v |-> R], O(A), Cl, Cl>>)
+  (* ... while indentation is still there where it is allowed: the same shapes with the character data removed *)
+  /\ Parse(Done(Run(WInit(TRUE, FALSE), <<O(A), O(B), Cl, O(A), Cl, Cl>>))) # TreeOf(<<O(A), O(B), Cl, O(A), Cl, Cl>>)
+  (* the dummy writer is exact on them *)
   /\ Parse(Done(Run(WInit(FALSE, FALSE), <<O(A), O(B), Tx(X), O(A)>>))) = TreeOf(<<O(A), O(B), Tx(X), O(A)>>)
   (* the document type declaration (m_needToOutputDoctypeDecl) goes out before the first start tag and leaves the tree alone *)
   /\ LET h == <<O(A), Tx(X), O(B), Cl, Cl>> IN
